@@ -40,6 +40,15 @@ PROPS = {
              "+ - and comparisons, scalar multiplication on either side, division by scalar, matrix sum, matrix product and matrix x vector are generated as programs; "
              "NslSem (vector and matrix actions typed by NslTypes) prescribes each result inside TLC and the VM must return it at both optimisation levels.",
         note=_TRUST + "Inputs have pairwise distinct exactly-representable components; the families are built by the driver (not enumerated inside TLC)."),
+    "C05": dict(
+        claimed=True, level="model_checking",
+        technique="trace validation: the pass/stage events recorded by the compiler hooks and the outcome of linking and of every invocation (classified by failing VM instruction) form one trace per compilation, consumed by the TLA+ specification Pipeline in TLC; the first inadmissible event is the verdict",
+        text="Every operator on every pair of spellable types (the cases of the TLA+ rule table), a catalogue of ~170 probe programs (one per construct, odd corners "
+             "included), seeded programs with every generator feature and the optimiser small-scope family are compiled at both optimisation levels with the hooks on; "
+             "Pipeline.tla admits: passes in order, nothing after a failed validation pass, optimisation passes iff optimisation is on, a module iff the pipeline "
+             "finished, no failure in lowering or in an IR pass once validation succeeded, linking succeeds, and an invocation ends in a value, a division by zero "
+             "or an index out of range. Anything else is an internal error keyed by (stage, exception class, innermost nsl function, opcode).",
+        note=_TRUST + "Inputs are two type-correct vectors per exported function built from the declared parameter and global types; defined failures are recognised by exception class and failing instruction."),
     "C06": dict(
         claimed=True, level="model_checking",
         technique="the emitted bytes are decoded, validated and executed by the TLA+ machine WasmBinary (reader actions + operand-stack validation + interpreter on exact values) inside TLC and compared with the real VM's result; wasmtime cross-checks the TLA+ engine",
